@@ -231,6 +231,18 @@ static int replay_C15(const Args&)
    CLAUSE(lex.cxx_linkage() == lex.cxx_linkage() && !(lex.cxx_linkage() == lex.c_linkage()) && lex.get_linkage(u8"C") == lex.c_linkage(), "linkage equality follows spelling");
    auto& seq = fn.source().elements(); std::size_t n = 0; for (auto it = seq.begin(); it != seq.end(); ++it) { if (&*it != &*seq.position(n)) ++fails; ++n; }
    CLAUSE(n == seq.size() && seq.empty() == (seq.size() == 0), "iteration visits exactly size() elements");
+   // == and != on transfers, linkages, conventions over a grid: != is the negation of ==, == follows the spelling of both components
+   const Linkage* lk[3] = { &lex.cxx_linkage(), &lex.c_linkage(), &lex.get_linkage(u8"Java") };
+   const Calling_convention* cc[3] = { &lex.get_calling_convention(u8""), &lex.get_calling_convention(u8"__stdcall"), &lex.get_calling_convention(u8"__fastcall") };
+   bool neg = true, spelled = true;
+   for (int a1 = 0; a1 < 3; ++a1) for (int a2 = 0; a2 < 3; ++a2) for (int b1 = 0; b1 < 3; ++b1) for (int b2 = 0; b2 < 3; ++b2) {
+      auto& x = lex.get_transfer(*lk[a1], *cc[a2]); auto& y = lex.get_transfer(*lk[b1], *cc[b2]);
+      neg = neg && ((x != y) == !(x == y)) && ((*lk[a1] != *lk[b1]) == !(*lk[a1] == *lk[b1])) && ((*cc[a2] != *cc[b2]) == !(*cc[a2] == *cc[b2]));
+      spelled = spelled && ((x == y) == (a1 == b1 && a2 == b2));
+   }
+   CLAUSE(neg, "!= is the negation of == on transfers, linkages and calling conventions (3 x 3 grid, all pairs)");
+   CLAUSE(spelled, "transfers are equal exactly when both components are spelled the same");
+   CLAUSE(impl::cxx_transfer().convention() == lex.get_calling_convention(u8""), "the natural calling convention equals the convention spelled \"\"");
    return fails;
 }
 
@@ -294,6 +306,12 @@ static int replay_C01(const Args& a)
    if (want("symbol")) CLAUSE(&lex.get_symbol(id, i) == &lex.get_symbol(id, i) && &lex.get_label(id) == &lex.get_label(id) && &lex.get_this(i) == &lex.get_this(i), "symbols, labels and this are unified");
    if (want("linkage")) CLAUSE(&lex.get_linkage(u8"Java") == &lex.get_linkage(u8"Java") && &lex.get_calling_convention(u8"cdecl") == &lex.get_calling_convention(u8"cdecl"), "linkages and calling conventions are unified");
    if (want("logogram")) CLAUSE(&lex.get_logogram(lex.get_string(u8"xyz")) == &lex.get_logogram(lex.get_string(u8"xyz")), "logograms are unified");
+   if (want("lookalike")) { impl::Lexicon other; const ipr::String& foreign = other.get_string(u8"foo");      // a String node that is not this Lexicon's
+      CLAUSE(&lex.get_identifier(foreign) == &id, "the identifier of a spelling is one node, whichever String node carries the spelling");
+      CLAUSE(&lex.get_operator(other.get_string(u8"+")) == &lex.get_operator(u8"+"), "the operator name of a spelling is one node, whichever String node carries the spelling"); }
+   if (want("void_label")) { auto& d = lex.get_identifier(u8"default"); auto& sy = lex.get_symbol(d, lex.void_type()); (void)sy;
+      CLAUSE(&lex.get_label(d) == &lex.default_value(), "the label `default` is the default constant even after a symbol (default, void) was requested");
+      CLAUSE(&lex.get_label(id) == &lex.get_symbol(id, lex.void_type()), "a label is the symbol (name, void)"); }
    // a spelling has a single Identifier everywhere: reserved spellings are the names of the built-in types and constants
    if (want("reserved")) {
       CLAUSE(&lex.get_identifier(u8"int") == &lex.int_type().name(), "get_identifier(\"int\") is the name of the built-in type int, not a look-alike");
